@@ -121,6 +121,8 @@ char *flat_text_for(FILE *fp)
 
 static unsigned char the_c;
 static int chunk_len;
+static char body[8], rest[8]; /* printed string body (between the quotes) of s and of s+1 */
+static int body_len, rest_len;
 static size_t index0;
 static cfg_t lcfg;
 
@@ -134,7 +136,16 @@ static void check(int tok)
 	(void)0;
 #endif
 	V_ASSERT(tok == -2, "[C05] a printed string byte does not end the string or fail when it is read back");
-	V_ASSERT(consumed == chunk_len, "[C05] reading back consumes exactly the printed form of the byte");
+	V_ASSERT(consumed >= 1 && consumed <= body_len, "[C05] reading back one byte stays inside the printed string");
+	if (consumed >= 1 && consumed <= body_len) {
+		/* what is left to read is exactly what the printer writes for the rest of the string */
+		int k, same = (body_len - consumed == rest_len);
+
+		for (k = 0; k < 4; k++)
+			if (k < rest_len && same && body[consumed + k] != rest[k])
+				same = 0;
+		V_ASSERT(same, "[C05] after reading back one byte the remaining text is the printed form of the remaining string (induction step)");
+	}
 	V_ASSERT(qstring_index == index0 + 1 && cfg_qstring != NULL && (unsigned char)cfg_qstring[index0] == the_c, "[C05] reading back yields exactly the byte that was printed (strings round-trip byte for byte)");
 	V_ASSERT(n_echo == 0, "[C02] nothing is echoed");
 	V_WITNESS("stepped");
@@ -158,59 +169,76 @@ int main(void)
 #if MODE == 1
 	{
 		V_IN_UCHAR(vin_c);
-		char s[2];
+		V_IN_UCHAR(vin_d);
+		char s[3];
 
 		V_ASSUME(vin_c != 0);
 #ifdef EXCL_DOLLAR
-		V_ASSUME(vin_c != '$'); /* re-proof outside the recorded finding */
+		V_ASSUME(vin_c != '$'); /* re-proof outside a recorded finding */
 #endif
 		the_c = vin_c;
 		s[0] = (char)vin_c;
-		s[1] = 0;
+		s[1] = (char)vin_d; /* may be 0: one-byte string */
+		s[2] = 0;
 		init_opt(O, "o", CFGT_STR, CFGF_NONE);
 		alloc_values(O, 1);
 		O->values[0]->string = heap_str(s);
 		cfg_opt_nprint_var(O, 0, (FILE *)&lcfg);
-		V_ASSERT(out_n >= 3 && out[0] == '"' && out[out_n - 1] == '"', "[C05] a string value is printed between double quotes");
-		chunk_len = out_n - 2;
-		for (i = 0; i < chunk_len && i < 4; i++)
-			src[i] = out[1 + i];
+		V_ASSERT(out_n >= 3 && out_n <= 6 && out[0] == '"' && out[out_n - 1] == '"', "[C05] a string value is printed between double quotes");
+		body_len = out_n - 2;
+		for (i = 0; i < body_len && i < 4; i++)
+			body[i] = out[1 + i];
+		/* the printed form of the rest of the string */
+		out_n = 0;
+		O->values[0]->string = heap_str(s + 1);
+		cfg_opt_nprint_var(O, 0, (FILE *)&lcfg);
+		rest_len = out_n - 2;
+		for (i = 0; i < rest_len && i < 4; i++)
+			rest[i] = out[1 + i];
 	}
 #elif MODE == 2
 	{
 		V_IN_UCHAR(vin_c);
+		V_IN_UCHAR(vin_d);
 		static cfg_opt_t sub[] = { CFG_END() };
 		cfg_t *sec;
-		char t[2];
-		int q1 = -1, q2 = -1;
+		char t[3];
+		int q1, q2, pass;
 
 		V_ASSUME(vin_c != 0);
-#ifdef EXCL_TITLE
-		V_ASSUME(vin_c != '"' && vin_c != '\\' && vin_c != '$');
-#endif
 		the_c = vin_c;
 		t[0] = (char)vin_c;
-		t[1] = 0;
+		t[1] = (char)vin_d;
+		t[2] = 0;
 		init_opt(O, "o", CFGT_SEC, CFGF_MULTI | CFGF_TITLE);
 		O->subopts = sub;
 		alloc_values(O, 1);
 		sec = malloc(sizeof(cfg_t));
 		V_ASSUME(sec != NULL);
 		init_cfg(sec, "o", alloc_opts(0), CFGF_NONE);
-		sec->title = heap_str(t);
 		O->values[0]->section = sec;
-		cfg_opt_print_pff_indent(O, (FILE *)&lcfg, NULL, 0);
-		/* o "<title>" {\n}\n : the title is what stands between the first quote and the LAST quote of line 1 */
-		for (i = 0; i < out_n && out[i] != '\n'; i++)
-			if (out[i] == '"') {
-				if (q1 < 0)
-					q1 = i;
-				q2 = i;
+		for (pass = 0; pass < 2; pass++) {
+			/* o "<title>" {\n}\n : the printed title stands between the first and the LAST quote of line 1 */
+			out_n = 0;
+			sec->title = heap_str(t + pass);
+			cfg_opt_print_pff_indent(O, (FILE *)&lcfg, NULL, 0);
+			/* o "<title>" {\n}\n : the printed title stands between the quote after the name and the quote
+			 * that precedes the final  {\n}\n  */
+			q1 = 2;
+			q2 = out_n - 6;
+			V_ASSERT(out_n >= 9 && out[0] == 'o' && out[1] == ' ' && out[q1] == '"' && q2 > q1 - 1 + 1 - (pass == 1) && out[q2] == '"' && out[q2 + 1] == ' ' && out[q2 + 2] == '{' &&
+					 q2 - q1 - 1 <= 4,
+				 "[C05] a section title is printed between double quotes after the section name");
+			if (pass == 0) {
+				body_len = q2 - q1 - 1;
+				for (i = 0; i < body_len && i < 4; i++)
+					body[i] = out[q1 + 1 + i];
+			} else {
+				rest_len = q2 - q1 - 1;
+				for (i = 0; i < rest_len && i < 4; i++)
+					rest[i] = out[q1 + 1 + i];
 			}
-		V_ASSERT(q1 == 2 && q2 > q1, "[C05] a section title is printed between double quotes after the section name");
-		chunk_len = q2 - q1 - 1;
-		for (i = 0; i < chunk_len && i < 4; i++)
-			src[i] = out[q1 + 1 + i];
+		}
 	}
 #endif
 #if MODE == 1 || MODE == 2
@@ -219,10 +247,13 @@ int main(void)
 		char vin_cont[CONT + 1];
 
 		V_FILL_STR(vin_cont, CONT);
-		V_ASSUME(chunk_len >= 1 && chunk_len <= 4);
+		V_ASSUME(body_len >= 1 && body_len <= 4);
+		for (i = 0; i < body_len; i++)
+			src[i] = body[i];
+		src[body_len] = '"'; /* the closing quote the printer writes */
 		for (i = 0; i < CONT; i++)
-			src[chunk_len + i] = vin_cont[i];
-		src[chunk_len + CONT] = 0;
+			src[body_len + 1 + i] = vin_cont[i];
+		src[body_len + 1 + CONT] = 0;
 		cfg_scan_fp_begin(&fake_fp);
 		BEGIN(dq_str);
 		qstring_len = 32;
